@@ -433,9 +433,12 @@ def timelock_cases():
     out = []
     locks = [0, 1, 100, 49999999, 50000000, 50000001, 499999999, 500000000, 500000001, 1700000000]
     for op, name in ((0xb1, 'cltv'), (0xb2, 'csv')):
-        for n in locks + [-1, (1 << 31), (1 << 22) | 5, 5]:
+        for n in locks + [-1, (1 << 31), (1 << 22) | 5, 5, 10, 65535, (1 << 22) | 16]:
             for tl in [0, 1, 100, 50000000, 499999999, 500000000, 1700000000]:
-                for seq in [0xffffffff, 0xfffffffe, 0, 5, (1 << 22) | 5, (1 << 31) | 5]:
+                # (sequence numbers also with bits BIP68 gives no meaning: 16..21 and 23..30 - consensus masks them away)
+                for seq in [0xffffffff, 0xfffffffe, 0, 5, (1 << 22) | 5, (1 << 31) | 5] + \
+                        ([0x00010005, 0x20000005, 0x003f0000, 0x10400005, 0x7fbf0064, 0x0001ffff]
+                         if name == 'csv' and tl in (0, 500000000) else []):
                     for ver in ([1, 2] if name == 'csv' else [2]):
                         out.append({'kind': 'program', 'tag': name, 'skip_stack': False,
                                     'items': [enc(n).hex() if n else 0x00, op],
